@@ -6,7 +6,7 @@ CONSTANTS K = 2
   TimeOut = 2
   MaxOps = 3
   MaxDowns = 1
-  MaxTicks = 1
+  MaxTicks = 0
   MaxExpires = 1
   MaxPend = 3
   MaxC2S = 8
